@@ -17,7 +17,36 @@ var coqBinop = map[string]string{"add": "OAdd", "sub": "OSub", "mul": "OMul", "d
 	"xor": "OXor", "andnot": "OAndNot", "shl": "OShl", "shr": "OShr", "eq": "OEq", "ne": "ONe", "lt": "OLt", "le": "OLe", "gt": "OGt",
 	"ge": "OGe", "land": "OLAnd", "lor": "OLOr"}
 
+func coqTys(ts []Ty) string {
+	var parts []string
+	for _, t := range ts {
+		parts = append(parts, coqTy(t))
+	}
+	return "[" + strings.Join(parts, "; ") + "]"
+}
+
 func coqTy(t Ty) string {
+	if t.isComp() {
+		d := t.desc()
+		switch d.Kind {
+		case "ptr":
+			return "(TPtr " + coqTy(d.Elem) + ")"
+		case "slice":
+			return "(TSlice " + coqTy(d.Elem) + ")"
+		case "array":
+			return fmt.Sprintf("(TArray %s %s)", coqZ(fmt.Sprint(d.Len)), coqTy(d.Elem))
+		case "map":
+			return "(TMap " + coqTy(d.Key) + " " + coqTy(d.Elem) + ")"
+		case "struct":
+			return "(TStruct " + coqTys(d.Fields) + ")"
+		case "func":
+			return "(TFunc " + coqTys(d.Ps) + " " + coqTys(d.Rs) + ")"
+		case "any":
+			return "TAny"
+		case "def":
+			return fmt.Sprintf("(TDef %d%%N %s)", d.Def, coqTy(d.Elem))
+		}
+	}
 	if t.N == 0 {
 		return "(TBasic " + coqBasic[t.B] + ")"
 	}
@@ -62,6 +91,55 @@ func coqExpr(e Expr) string {
 		return fmt.Sprintf("(ECall %d%%N %s)", e.F, coqExprs(e.Args))
 	case *Pkg:
 		return fmt.Sprintf("(EPkg %d%%N %d%%N %s)", e.P, e.F, coqExprs(e.Args))
+	case *CompLit:
+		l := "LNil"
+		for i := len(e.Els) - 1; i >= 0; i-- {
+			el := e.Els[i]
+			switch el.Kind {
+			case "pos":
+				l = "(LPos " + coqExpr(el.E) + " " + l + ")"
+			case "idx":
+				l = "(LIdx " + coqZ(fmt.Sprint(el.Z)) + " " + coqExpr(el.E) + " " + l + ")"
+			default:
+				l = "(LKey " + coqExpr(el.K) + " " + coqExpr(el.E) + " " + l + ")"
+			}
+		}
+		return "(ECompLit " + coqTy(e.T) + " " + l + ")"
+	case *Index:
+		return "(EIndex " + coqExpr(e.A) + " " + coqExpr(e.I) + ")"
+	case *SliceE:
+		o := func(x Expr) string {
+			if x == nil {
+				return "EOmit"
+			}
+			return coqExpr(x)
+		}
+		return "(ESliceE " + coqExpr(e.A) + " " + o(e.Lo) + " " + o(e.Hi) + ")"
+	case *Addr:
+		return "(EAddr " + coqExpr(e.E) + ")"
+	case *Deref:
+		return "(EDeref " + coqExpr(e.E) + ")"
+	case *Sel:
+		return fmt.Sprintf("(ESel %s %d%%N)", coqExpr(e.E), e.I)
+	case *Assert:
+		return "(EAssert " + coqExpr(e.E) + " " + coqTy(e.T) + ")"
+	case *Builtin:
+		switch e.Name {
+		case "len":
+			return "(ELen " + coqExpr(e.Args[0]) + ")"
+		case "cap":
+			return "(ECap " + coqExpr(e.Args[0]) + ")"
+		case "append":
+			return "(EAppend " + coqExpr(e.Args[0]) + " " + coqExprs(e.Args[1:]) + ")"
+		case "make":
+			return "(EMake " + coqTy(*e.T) + " " + coqExprs(e.Args) + ")"
+		case "new":
+			return "(ENew " + coqTy(*e.T) + ")"
+		case "copy":
+			return "(ECopy " + coqExpr(e.Args[0]) + " " + coqExpr(e.Args[1]) + ")"
+		case "delete":
+			return "(EDelete " + coqExpr(e.Args[0]) + " " + coqExpr(e.Args[1]) + ")"
+		}
 	}
 	panic("coqExpr")
 }
@@ -126,6 +204,10 @@ func coqStmt(s Stmt) string {
 		return "SContinue"
 	case *Block:
 		return "(SBlock " + coqBlock(s.B) + ")"
+	case *Set:
+		return "(SSet " + coqExpr(s.L) + " " + coqExpr(s.E) + ")"
+	case *Range:
+		return fmt.Sprintf("(SRange %d%%N %d%%N %v %s %s)", s.K, s.V, s.Def, coqExpr(s.E), coqBlock(s.Body))
 	}
 	panic("coqStmt")
 }
